@@ -359,6 +359,57 @@ fn special_programs() -> Vec<(&'static str, Prog, &'static str, bool)> {
         "100 1 object(..=5) 6 6\n",
         true,
     ));
+    // one Method constant used both as a global function and as a class member; `return` in the
+    // middle of a method; operands pending on the stack across calls; a parameter slot assigned
+    v.push((
+        "shared-method-early-return-pending-operands",
+        Prog {
+            consts: vec![
+                s("pick"),
+                s("then"),
+                Const::Int(1),
+                Const::Int(2),
+                // pick(a, b): if a then return b (early) ; a <- 2 ; return a
+                Const::Method {
+                    name: 0,
+                    arity: 2,
+                    locals: 0,
+                    code: vec![Ins::GetLocal(0), Ins::Branch(1), Ins::Lit(3), Ins::SetLocal(0), Ins::Return, Ins::Label(1), Ins::GetLocal(1), Ins::Return, Ins::Lit(2), Ins::Return],
+                },
+                Const::Class(vec![4]),
+                Const::Null,
+                Const::Bool(false),
+                Const::Int(7),
+                s("~ ~ ~ ~ ~\n"),
+                s("main"),
+                Const::Int(40),
+                Const::Method {
+                    name: 10,
+                    arity: 0,
+                    locals: 0,
+                    code: vec![
+                        Ins::Lit(11),        // 40 stays pending at the bottom
+                        Ins::Lit(2),         // 1 pending
+                        Ins::Lit(7),         // false
+                        Ins::Lit(8),         // 7
+                        Ins::Call(0, 2),     // pick(false, 7) as a function -> a <- 2 -> 2
+                        Ins::Lit(6),         // null (parent)
+                        Ins::Object(5),      // object with member `pick`
+                        Ins::Lit(8),         // 7
+                        Ins::CallSlot(0, 2), // obj.pick(7): a = obj (truthy) -> early return b = 7
+                        Ins::Lit(2),
+                        Ins::Lit(8),
+                        Ins::Call(0, 2),     // pick(1, 7) -> 7
+                        Ins::Print(9, 5),    // 40 1 2 7 7
+                    ],
+                },
+            ],
+            globals: vec![4],
+            entry: 12,
+        },
+        "40 1 2 7 7\n",
+        true,
+    ));
     // method call: slot 0 = receiver, args in call order, locals null; Feeny spellings
     v.push((
         "method-frame-and-feeny",
